@@ -277,6 +277,8 @@ var c08StreamKinds = []string{
 	"WINDOW_UPDATE(1)", "WINDOW_UPDATE(0)", "WINDOW_UPDATE(max)", "WINDOW_UPDATE(over)",
 	"PRIORITY(other)", "PRIORITY(self)",
 	"UNKNOWN",
+	// undefined flag bits (the ones that mean END_STREAM / END_HEADERS / PADDED / PRIORITY on other types)
+	"CONTINUATION+EH~U", "DATA~U", "RST_STREAM~U", "WINDOW_UPDATE(1)~U", "PRIORITY(other)~U",
 }
 var c08ConnKinds = []string{"PING", "PING+ACK", "SETTINGS", "SETTINGS+ACK", "WINDOW_UPDATE(1)", "WINDOW_UPDATE(0)", "UNKNOWN"}
 
@@ -340,7 +342,9 @@ func (x *c08Run) apply(ev c08Ev) *fw.Violation {
 	newStream := false
 
 	// what the frame is, and the reference verdict
-	kind := ev.Kind
+	// "~U": the same frame with every flag bit set that its type does not define (RFC 7540 4.1: ignored)
+	undef := strings.HasSuffix(ev.Kind, "~U")
+	kind := strings.TrimSuffix(ev.Kind, "~U")
 	if kind == "handler" {
 		if s.callIdx < len(h.Calls) {
 			h.Finish(s.callIdx, harness.Resp{Status: 200})
@@ -625,6 +629,9 @@ func (x *c08Run) apply(ev c08Ev) *fw.Violation {
 		}
 	}
 
+	if undef {
+		fr.Flags |= 0x2d &^ peer.DefinedFlags(fr.Type)
+	}
 	h.SendFrames(fr)
 	rx := x.observe(from, calls0, acks0, packs0)
 	x.trace = append(x.trace, fmt.Sprintf("%s[%d] (%s) -> %s", ev.Kind, id, preState, rx))
